@@ -22,17 +22,12 @@ from vlib.build import BuildError
 from tools.gen import marsh as gen_marsh
 from tools.gen.csrc import ExtractError
 
-THEOREMS = [
-    "JanetModel.Props.C09.readint_pushint",
-    "JanetModel.Props.C09.pushint_length",
-    "JanetModel.Props.C09.readint_consumes",
-    "JanetModel.Props.C09.signExtMid_eq",
-]
-try:
-    with open(os.path.join(VERIF, "harness/C09/theorems.txt")) as _f:
-        THEOREMS += [l.strip() for l in _f if l.strip() and not l.startswith("#")]
-except FileNotFoundError:
-    pass
+THEOREMS = ["JanetModel.Props.C09." + t for t in (
+    "readint_pushint", "pushint_length", "readint_consumes", "signExtMid_eq",          # integer codec
+    "read64_push64",                                                                     # size codec
+    "roundtrip_graph", "ids_agree", "roundtrip_graph_top", "roundtrip_tree",            # data graphs: sharing and cycles
+    "read_total_inbounds", "unmarshal_nil",                                              # decoder stays inside the buffer
+)]
 
 ENV = dict(os.environ, ASAN_OPTIONS="detect_leaks=0:abort_on_error=0", UBSAN_OPTIONS="print_stacktrace=1")
 H = os.path.join(VERIF, "harness/C09")
